@@ -60,7 +60,9 @@ import (
 	"regexp"
 	"runtime"
 	"runtime/debug"
+	"strconv"
 	"strings"
+	"syscall"
 	"sync"
 	"testing"
 	"time"
@@ -154,6 +156,10 @@ func c28WhyDead(stderr string, state string) string {
 				}
 			}
 			if marker == "fatal error: " {
+				if strings.Contains(msg, "out of memory") {
+					msg = "out of memory" // "runtime: out of memory" (mmap refused) or "out of memory" (limit reached)
+				}
+				// no function: with the address space exhausted, any goroutine may be the one that fails
 				return "fatal: " + c28Digits.ReplaceAllString(msg, "N")
 			}
 			msg = strings.TrimSuffix(msg, " [recovered]")
@@ -173,6 +179,8 @@ type c28Result struct {
 	Why     string `json:"why"`
 	Detail  string `json:"detail,omitempty"` // free text for the replay file, not compared
 	Inputs  int    `json:"inputs"`           // concrete inputs executed
+	Caught  int    `json:"caught,omitempty"` // panics the router's own panicCatcher turned into a 500 (an answer, not a failure)
+	CaughtW string `json:"caught_why,omitempty"`
 	Err     string `json:"err,omitempty"`    // harness error (not a verdict)
 }
 
@@ -212,6 +220,7 @@ type c28Harness struct {
 	vec    map[string]any
 	res    *c28Result
 	inputs int
+	caught int
 	starts int
 	log    *os.File
 }
@@ -322,6 +331,7 @@ func (h *c28Harness) Apply(a map[string]any) error {
 		}
 	}
 	h.seq++
+	t0 := time.Now()
 	req, _ := json.Marshal(map[string]any{"id": h.seq, "v": h.vec})
 	if _, err := h.child.toW.Write(append(req, '\n')); err != nil {
 		// the child died between two vectors: that cannot be attributed (the barrier
@@ -343,6 +353,9 @@ func (h *c28Harness) Apply(a map[string]any) error {
 			return fmt.Errorf("harness error in the child: %s", r.Err)
 		}
 		h.res = &r
+		if r.Outcome == "hang" { // the child leaves after reporting a hang
+			h.reap()
+		}
 	case errors.Is(err, context.DeadlineExceeded):
 		h.kill()
 		h.res = &c28Result{Outcome: "hang", Why: "vector not finished within the deadline"}
@@ -351,8 +364,12 @@ func (h *c28Harness) Apply(a map[string]any) error {
 		h.res = &c28Result{Outcome: "crash", Why: c28WhyDead(errText, state), Detail: "the process terminated (" + state + "):\n" + c28First(errText, 6000)}
 	}
 	h.inputs += h.res.Inputs
+	h.caught += h.res.Caught
+	if h.log != nil && h.res.Caught > 0 {
+		fmt.Fprintf(h.log, "# %d panics caught by the router's panicCatcher in the next vector, first: %s\n", h.res.Caught, h.res.CaughtW)
+	}
 	if h.log != nil {
-		fmt.Fprintf(h.log, "%s %s inputs=%d why=%q\n", verifkit.Canon(h.vec), h.res.Outcome, h.res.Inputs, h.res.Why)
+		fmt.Fprintf(h.log, "%s %s inputs=%d ms=%d why=%q\n", verifkit.Canon(h.vec), h.res.Outcome, h.res.Inputs, time.Since(t0).Milliseconds(), h.res.Why)
 	}
 	return nil
 }
@@ -449,7 +466,7 @@ func TestVerifC28Inputs(t *testing.T) {
 	if err := verifkit.Main(&c28Matcher{c28Harness: h, known: known}); err != nil {
 		t.Fatal(err)
 	}
-	t.Logf("c28: %d concrete inputs, %d child processes", h.inputs, h.starts)
+	t.Logf("c28: %d concrete inputs, %d child processes, %d panics answered by the router's panicCatcher", h.inputs, h.starts, h.caught)
 }
 
 func c28Explore(t *testing.T, h *c28Harness) {
@@ -481,7 +498,7 @@ func c28Explore(t *testing.T, h *c28Harness) {
 			fmt.Printf("C28 %s %s why=%q\n%s\n\n", verifkit.Canon(h.vec), h.res.Outcome, h.res.Why, c28First(h.res.Detail, 1500))
 		}
 	}
-	fmt.Printf("C28 explore: %d vectors not ok, %d concrete inputs, %d child processes\n", bad, h.inputs, h.starts)
+	fmt.Printf("C28 explore: %d vectors not ok, %d concrete inputs, %d child processes, %d panics answered by the router's panicCatcher\n", bad, h.inputs, h.starts, h.caught)
 }
 
 // ---------------------------------------------------------------------------
@@ -520,11 +537,15 @@ type c28Env struct {
 	h2c      *http.Client
 	zenc     *zstd.Encoder
 
-	mu    sync.Mutex
-	fail  *c28Failure
-	count int
-	spans int
-	seq   int
+	seed int
+
+	mu        sync.Mutex
+	fail      *c28Failure
+	count     int
+	spans     int
+	seq       int
+	caught    int
+	caughtWhy string
 }
 
 func (e *c28Env) record(outcome, why, detail string) {
@@ -550,6 +571,34 @@ func (e *c28Env) guarded(where string, f func()) {
 		}
 	}()
 	f()
+}
+
+// --- a logger that notices what the router's panicCatcher caught -----------------
+
+type c28Logger struct {
+	logger.NullLogger
+	env *c28Env
+}
+
+type c28LogEntry struct{ env *c28Env }
+
+func (l *c28Logger) Error() logger.Entry { return &c28LogEntry{env: l.env} }
+
+func (e *c28LogEntry) WithField(string, interface{}) logger.Entry { return e }
+func (e *c28LogEntry) WithString(string, string) logger.Entry     { return e }
+func (e *c28LogEntry) Logf(string, ...interface{})                {}
+func (e *c28LogEntry) WithFields(f map[string]interface{}) logger.Entry {
+	if f["error.msg"] == ErrCaughtPanic.msg {
+		st, _ := f["error.stack_trace"].(string)
+		why := c28Why(fmt.Sprint(f["error.err"]), st)
+		e.env.mu.Lock()
+		e.env.caught++
+		if e.env.caughtWhy == "" {
+			e.env.caughtWhy = why
+		}
+		e.env.mu.Unlock()
+	}
+	return e
 }
 
 // --- stand-ins for collector and transmissions ---------------------------------
@@ -696,6 +745,7 @@ func c28NewEnv() (*c28Env, error) {
 		return nil, err
 	}
 	e := &c28Env{dir: dir, thorough: os.Getenv("VERIF_TIER") == "thorough", urls: map[string]string{}}
+	e.seed, _ = strconv.Atoi(os.Getenv("VERIF_SEED"))
 	e.honey = httptest.NewServer(http.HandlerFunc(func(w http.ResponseWriter, req *http.Request) {
 		io.Copy(io.Discard, req.Body)
 		if req.URL.Path == "/1/auth" {
@@ -725,7 +775,7 @@ func c28NewEnv() (*c28Env, error) {
 		hr.SetAlive(true)
 		hr.SetReady(true)
 		r := &Router{
-			Config: e.cfg, Logger: &logger.NullLogger{}, Health: hr, HTTPTransport: &http.Transport{},
+			Config: e.cfg, Logger: &c28Logger{env: e}, Health: hr, HTTPTransport: &http.Transport{},
 			UpstreamTransmission: &c28Transmission{env: e}, PeerTransmission: &c28Transmission{env: e},
 			Sharder:   &sharder.MockSharder{Self: &sharder.TestShard{Addr: "http://c28-self:8081"}, Other: &sharder.TestShard{Addr: "http://c28-other:8081", TraceIDs: []string{"c28trace2"}}},
 			Collector: &c28Collector{env: e}, Metrics: mm, Tracer: noop.Tracer{},
@@ -773,14 +823,17 @@ var c28GoroutineHead = regexp.MustCompile(`(?m)^goroutine \d+ \[([^\],]+)`)
 
 // c28Quiesce returns when, three times in a row, no goroutine but the caller is
 // running or runnable: everything a vector started has blocked or died.
+var c28StackBuf = make([]byte, 1<<20)
+
 func c28Quiesce() {
-	buf := make([]byte, 1<<20)
+	buf := c28StackBuf
 	calm := 0
-	for i := 0; i < 100000 && calm < 3; i++ {
+	for i := 0; i < 5000 && calm < 2; i++ {
 		runtime.Gosched()
 		n := runtime.Stack(buf, true)
 		for n == len(buf) {
 			buf = make([]byte, 2*len(buf))
+			c28StackBuf = buf
 			n = runtime.Stack(buf, true)
 		}
 		busy := 0
@@ -935,6 +988,28 @@ var c28OddHeaders = [][][2]string{
 	{{"X-Honeycomb-Event-Time", ".5"}, {"User-Agent", ""}, {"Content-Type", "application/json"}},
 }
 
+func c28Native(ep string) string {
+	switch ep {
+	case "event", "batch", "peer-batch", "proxy":
+		return "json"
+	case "query":
+		return "absent"
+	}
+	return "protobuf"
+}
+
+func c28SpeaksCtype(ep, ctype string) bool {
+	switch ep {
+	case "event", "batch", "peer-batch":
+		return ctype == "json" || ctype == "msgpack"
+	case "otlp-http-traces", "otlp-http-logs":
+		return ctype == "json" || ctype == "protobuf"
+	case "otlp-grpc-traces", "otlp-grpc-logs":
+		return ctype == "protobuf"
+	}
+	return false
+}
+
 func c28Family(ep string) string {
 	switch ep {
 	case "event":
@@ -1011,8 +1086,29 @@ func (e *c28Env) evalRequest(v map[string]any) {
 	case "otlp-grpc-logs":
 		target, path = "grpc", "/opentelemetry.proto.collector.logs.v1.LogsService/Export"
 	}
+	// how much of the class: everything at the endpoint's base combination, a seed-shifted sample elsewhere
+	away := 0
+	if ctype != c28Native(ep) {
+		away++
+	}
+	if comp != "none" {
+		away++
+	}
+	if hdr != "key" {
+		away++
+	}
+	d := c28Density{Seed: e.seed, Positions: 4, Members: 8}
+	if e.thorough {
+		d.Members = 16
+	}
+	if away == 0 || (comp == "none" && hdr == "key" && c28SpeaksCtype(ep, ctype)) {
+		d.Positions, d.Members = 12, 0
+		if e.thorough {
+			d.Dense, d.DenseEnc = true, ctype
+		}
+	}
 	n := 0
-	for _, b := range c28Bodies(fam, shape, e.thorough) {
+	for _, b := range c28Bodies(fam, shape, e.thorough, d) {
 		if grpc && b.Enc != "protobuf" && shape != "valid" && shape != "wrongtop" {
 			continue // a gRPC message is protobuf; the JSON members are sent once, as wrong content
 		}
@@ -1021,7 +1117,11 @@ func (e *c28Env) evalRequest(v map[string]any) {
 			if grpc {
 				e.sendGRPC(path, ctype, comp, hs, b)
 			} else {
-				for _, c := range e.compress(comp, b.Data) {
+				cs := e.compress(comp, b.Data)
+				if len(cs) > 1 && shape != "valid" { // the corrupt-compression variants take turns
+					cs = cs[n%len(cs) : n%len(cs)+1]
+				}
+				for _, c := range cs {
 					h := append(append([][2]string{}, hs...), [2]string{"Content-Type", c28ContentType(ctype, false)})
 					if c[0].(string) != "" {
 						h = append(h, [2]string{"Content-Encoding", c[0].(string)})
@@ -1050,7 +1150,8 @@ func (e *c28Env) evalRequest(v map[string]any) {
 			{"frame-flag-compressed-without-encoding", c28GRPCFrame(1, msg)},
 			{"two-frames", append(c28GRPCFrame(0, msg), c28GRPCFrame(0, msg)...)},
 			{"frame-cut", c28GRPCFrame(0, msg)[:7]},
-			{"no-frame", nil},
+			// not sent: a stream that ends without any DATA frame. grpc-go leaves it unanswered until the client goes
+			// away or the connection ages out (no handler of refinery is involved); it is not counted as a hang.
 		} {
 			h := append(e.headers(hdr, 0), [2]string{"Content-Type", c28ContentType(ctype, true)}, [2]string{"Te", "trailers"})
 			e.send(c28Send{target: "grpc", method: "POST", path: path, headers: h, body: f.frame, label: f.label})
@@ -1094,6 +1195,9 @@ func (e *c28Env) sendGRPC(path, ctype, comp string, hs [][2]string, b c28Body) {
 			{"identity", "identity-flag-set", c28GRPCFrame(1, b.Data)},
 			{"c28junk", "unknown-encoding", c28GRPCFrame(1, b.Data)},
 		}
+	}
+	if len(frames) > 1 && b.Label != "valid" {
+		frames = frames[e.count%len(frames) : e.count%len(frames)+1]
 	}
 	for _, f := range frames {
 		h := append(append([][2]string{}, hs...), [2]string{"Content-Type", c28ContentType(ctype, true)}, [2]string{"Te", "trailers"})
@@ -1140,7 +1244,7 @@ func (e *c28Env) evalQuery(shape, hdr string) {
 }
 
 func (e *c28Env) evalProxy(ctype, comp, shape, hdr string) {
-	bodies := map[string][][]byte{"valid": {[]byte(`{"message":"c28 marker"}`)}, "empty": {nil}, "hugelen": {bytes.Repeat([]byte("c28 "), 2<<20)},
+	bodies := map[string][][]byte{"valid": {[]byte(`{"message":"c28 marker"}`)}, "empty": {nil}, "hugelen": {bytes.Repeat([]byte("c28 "), 1<<18)},
 		"badutf8": {[]byte("\xff\xfe\xc3\x28")}}[shape]
 	paths := []string{"/1/markers/" + c28Dataset, "/", "/1/auth", "/2/anything?x=%ff&y=c28", "/1/events", "/1/batch", "/v1/metrics", "/v1/traces/extra", "/alive/x", "/version", "/alive", "/ready"}
 	if shape == "badutf8" {
@@ -1469,11 +1573,21 @@ func (e *c28Env) evalConfig(v map[string]any) {
 		e.cfg.set(e.base)
 		e.newFactory()
 	}()
-	// every ingest endpoint once, with a valid body, while this configuration is in force
-	for _, ep := range []string{"event", "batch", "peer-batch", "otlp-http-traces", "otlp-http-logs", "otlp-grpc-traces", "otlp-grpc-logs"} {
-		for _, enc := range c28Encodings(c28Family(ep)) {
-			if strings.HasPrefix(ep, "otlp-grpc-") && enc != "protobuf" {
-				continue
+	// every ingest endpoint once, with a valid body, while this configuration is in force (a rule
+	// condition is only ever looked at by the sampler: one request that reaches it is enough)
+	eps := []string{"event", "batch", "peer-batch", "otlp-http-traces", "otlp-http-logs", "otlp-grpc-traces", "otlp-grpc-logs"}
+	isCond := verifkit.Str(v, "param") == "Cond"
+	if isCond {
+		eps = []string{"batch"}
+	}
+	for i, ep := range eps {
+		encs := c28Encodings(c28Family(ep))
+		if !e.thorough { // quick: the endpoint's encodings take turns
+			encs = encs[i%len(encs) : i%len(encs)+1]
+		}
+		for _, enc := range encs {
+			if strings.HasPrefix(ep, "otlp-grpc-") {
+				enc = "protobuf"
 			}
 			ct := enc
 			e.evalRequestOne(ep, ct, enc)
@@ -1484,7 +1598,11 @@ func (e *c28Env) evalConfig(v map[string]any) {
 		}
 	}
 	// the debug endpoints marshal the rules
-	for _, f := range []string{"json", "yaml", "toml"} {
+	fmts := []string{"json", "yaml", "toml"}
+	if isCond || !e.thorough {
+		fmts = fmts[e.seq%3 : e.seq%3+1]
+	}
+	for _, f := range fmts {
 		h := [][2]string{{"X-Honeycomb-Refinery-Query", c28QueryToken}}
 		e.send(c28Send{target: "incoming", method: "GET", path: "/query/allrules/" + f, headers: h, label: "allrules"})
 		e.send(c28Send{target: "incoming", method: "GET", path: "/query/rules/" + f + "/" + c28EnvName, headers: h, label: "rules"})
@@ -1591,7 +1709,7 @@ func (e *c28Env) selfCheck() error {
 
 func (e *c28Env) eval(v map[string]any) c28Result {
 	e.mu.Lock()
-	e.fail, e.count = nil, 0
+	e.fail, e.count, e.caught, e.caughtWhy = nil, 0, 0, ""
 	e.mu.Unlock()
 	switch verifkit.Str(v, "kind") {
 	case "req":
@@ -1612,7 +1730,7 @@ func (e *c28Env) eval(v map[string]any) c28Result {
 	}
 	e.mu.Lock()
 	defer e.mu.Unlock()
-	r := c28Result{Outcome: "ok", Inputs: e.count}
+	r := c28Result{Outcome: "ok", Inputs: e.count, Caught: e.caught, CaughtW: e.caughtWhy}
 	if e.fail != nil {
 		if e.fail.outcome == "harness" {
 			return c28Result{Err: e.fail.detail}
@@ -1629,6 +1747,11 @@ func c28ChildMain() {
 		b, _ := json.Marshal(r)
 		out.Write(append(b, '\n'))
 	}
+	// A bounded address space stands for the memory limit every deployment has: an input that makes
+	// Refinery allocate without bound ends in the runtime's "out of memory" here instead of taking
+	// the machine down.
+	lim := uint64(3) << 30
+	syscall.Setrlimit(syscall.RLIMIT_AS, &syscall.Rlimit{Cur: lim, Max: lim})
 	env, err := c28NewEnv()
 	if err == nil {
 		err = env.selfCheck()
@@ -1656,5 +1779,9 @@ func c28ChildMain() {
 		r := env.eval(req.V)
 		r.ID = req.ID
 		reply(r)
+		if r.Outcome == "hang" {
+			os.RemoveAll(env.dir)
+			os.Exit(0) // whatever is still running in here must not leak into the next vector
+		}
 	}
 }
